@@ -86,7 +86,10 @@ pub fn c07_case(data: &[u8]) -> c07::Case {
         1 => Some(1),
         _ => Some(2),
     };
-    let policy = byte(&mut u) % 15;
+    // the two nearest-good-day policies cost up to 60 ms per call at high latitude (much more under ASan): they get 1/16 of
+    // the byte range instead of 2/15
+    let pb = byte(&mut u);
+    let policy = if pb % 16 == 15 { 5 + (pb / 16) % 2 } else { [0u8, 1, 2, 3, 4, 7, 8, 9, 10, 11, 12, 13, 14][(pb % 16) as usize % 13] };
     let policy_lat = match byte(&mut u) % 5 {
         0 => pick(&mut u, &[90.0, -90.0, 0.0, 66.56, -66.56, 48.5]),
         _ => range(&mut u, -90.0, 90.0),
